@@ -446,7 +446,7 @@ def run_station(spec, rec, dadi):
         # every other case passes the size as a function of time (the time-dependent driver and its own kernels)
         asfunc = ci % 2 == 1
         nu_arg = (lambda t, nu=nu: nu) if asfunc else nu
-        tags = {"nu_is_1": nu == 1.0, "genic": h == 0.5, "asfunc": asfunc, "beta_is_1": beta == 1.0}
+        tags = {"nu_is_1": nu == 1.0, "genic": h == 0.5, "asfunc": asfunc, "beta_is_1": beta == 1.0, "after_other_beta": ci % 4 == 0}
         errs = []
         for pts in (40, 80, 160):
             xx = Numerics.default_grid(pts)
@@ -454,6 +454,10 @@ def run_station(spec, rec, dadi):
             a = np.asarray(Spectrum.from_phi(p, [n], [xx]).data)[1:n]
             sig = a >= 1e-3 * a.max()
             r = []
+            if ci % 4 == 0:
+                # the same grid, size, selection and dominance were used a moment ago with another breeding ratio: nothing of that
+                # call may carry over into this one
+                Integration.one_pop(p, xx, 0.02 * nu, nu=nu_arg, gamma=gamma, h=h, theta0=th, beta=beta * 2.5)
             for T in (0.1 * nu, nu):
                 qd = Integration.one_pop(p, xx, T, nu=nu_arg, gamma=gamma, h=h, theta0=th, beta=beta)
                 b = np.asarray(Spectrum.from_phi(qd, [n], [xx]).data)[1:n]
